@@ -265,5 +265,28 @@ def ops : List Op := [
 
 def find (fmt op : Nat) : Option Op := ops.find? (fun o => o.fmt == fmt && o.op == op)
 
+/-! ## Architected destinations, from the "SCC"/"D" columns of the manuals' opcode tables (written
+    independently of the semantic functions above; `MgpuProofs/Props/C03S.lean: spec_respects_writes`
+    checks the two against each other) -/
+
+def wD : Writes := ⟨true, false, false, false, false⟩      -- destination only
+def wDS : Writes := ⟨true, true, false, false, false⟩      -- destination and SCC
+def wS : Writes := ⟨false, true, false, false, false⟩      -- SCC only
+def wDSE : Writes := ⟨true, true, false, true, false⟩      -- destination, SCC and EXEC
+def wP : Writes := ⟨false, false, false, false, true⟩      -- PC only
+def wNone : Writes := ⟨false, false, false, false, false⟩
+
+def writes (fmt op : Nat) : Writes :=
+  match fmt with
+  | 0 => -- SOP2: s_cselect_b32/b64, s_bfm_b32, s_mul_i32, s_mul_hi_u32 leave SCC alone
+    if op == 10 || op == 11 || op == 34 || op == 36 || op == 44 then wD else wDS
+  | 1 => -- SOPK: s_cmpk_* write SCC only; s_movk/s_cmovk/s_mulk write D only
+    if op == 2 || op == 3 then wS else wD
+  | 2 => -- SOP1: s_*_saveexec_b64 write D, EXEC, SCC; s_not_b32 and s_abs_i32 write D, SCC
+    if 32 ≤ op && op ≤ 39 then wDSE else if op == 4 || op == 48 then wDS else wD
+  | 3 => wS   -- SOPC
+  | 4 => if op == 0 || op == 12 then wNone else wP   -- SOPP: s_nop, s_waitcnt / branches
+  | _ => wNone
+
 end Spec
 end C03S
